@@ -22,6 +22,9 @@ import (
 //	SkExit         os.Exit
 //	SkAssert       single-value type assertion x.(T)  (panics when the dynamic type differs)
 //	SkMustCompile  regexp.MustCompile / MustCompilePOSIX of a non-constant expression
+//	SkMustCall     call of a kustomize function or method named Must* / *OrDie (MustYaml, MustString,
+//	               MustParse, MustAsset, NewLoaderOrDie ...): the helper panics or exits on behalf of
+//	               its caller, so every call is a site of the caller
 //	SkOther        a call the translator recognises as terminating but cannot classify
 //	               (runtime.Goexit, syscall.Exit, klog.Fatal* ...): never allow-listed, so it
 //	               fails the obligation.
@@ -299,6 +302,10 @@ func scanBody(p *packages.Package, info *types.Info, src map[string][]byte, pkg,
 				return true
 			}
 			pp, name := fn.Pkg().Path(), fn.Name()
+			if strings.HasPrefix(pp, kustomizePrefix) && (strings.HasPrefix(name, "Must") || strings.HasSuffix(name, "OrDie")) {
+				add("SkMustCall", x)
+				return true
+			}
 			switch {
 			case pp == "log" && strings.HasPrefix(name, "Fatal"):
 				add("SkFatal", x)
